@@ -290,7 +290,7 @@ theorem C05_new_interp_undefined_rejected (ext : Ext) (x : SVal) (path : String)
 returned arrays decode — Arrow reading rules — to exactly those values: row `i` is the struct whose `j`-th field is
 slot `i` of column `j`.  Hypotheses and coverage are those of `Props.C01.C01_build_decode`. -/
 theorem C05_toMarrow_ok_exact (ext : Ext) (fields : List Field) (rows : List SVal) (arrs : List Arr)
-    (hmap : ∀ f ∈ fields, Lemmas.C03.Map2F f) (hschema : ∀ f ∈ fields, Lemmas.C03.SchemaOKF f)
+    (hschema : ∀ f ∈ fields, Lemmas.C03.SchemaOKF f)
     (hcov : fields.all Build.coveredF = true)
     (hsafe : ∀ root0, newRoot fields = .ok root0 → Safe root0)
     (hraw : ∀ x ∈ rows, Build.noRaw x = true)
@@ -302,7 +302,7 @@ theorem C05_toMarrow_ok_exact (ext : Ext) (fields : List Field) (rows : List SVa
       (∀ c ∈ cols, c.2.length = rows.length) ∧
       ∀ (i : Nat) (hi : i < rows.length),
         interpRow ext fields rows[i] = .ok (.struct (LFields.ofList (cols.map fun c => (c.1, c.2.getD i .null)))) := by
-  obtain ⟨_, cols, h1, h2, h3, h4⟩ := Props.C01.C01_build_decode ext fields rows arrs hmap hschema hcov hsafe hraw h
+  obtain ⟨_, cols, h1, h2, h3, h4⟩ := Props.C01.C01_build_decode ext fields rows arrs hschema hcov hsafe hraw h
   refine ⟨?_, cols, h1, h2, h3, h4⟩
   intro x hx
   obtain ⟨i, hi, rfl⟩ := List.getElem_of_mem hx
